@@ -109,6 +109,10 @@ impl Monitor for C06 {
                 rep.count("limit_equal_to_needed_limit_cases", 1);
             }
             limits.push(n + 1);
+            // "no limit": an Ok result never depends on how far beyond the needed value the limit lies
+            if rng.chance(1, 4) {
+                limits.push(*rng.pick(&[u64::MAX, u64::MAX - 1, u64::MAX / 2]));
+            }
         } else {
             limits.push(rng.range(1, generous));
         }
